@@ -203,8 +203,11 @@ def main_met():
 # --------------------------------------------------------------------------- C13
 
 
-def build_raw(o, m):
+def build_raw(o, m, square=False):
     dom = dict(BASE_DOMAIN)
+    if square:
+        # a square grid: a user-supplied (ny, nx) flux then has the shape of its own transpose
+        dom.update(nx=7, ny=7, xmax=140.0, ymax=105.0)
     if o["modes"] == "explicit":
         dom["modes"] = [6, 4]
     if o["halo"] == "value":
@@ -254,7 +257,7 @@ def same(a, b):
     return a == b and type(a) == type(b) or (a is None and b is None) or (isinstance(a, (int, float)) and isinstance(b, (int, float)) and a == b)
 
 
-def explicit_pipeline(cfg, raw, o, m, i, tower, supplied):
+def explicit_pipeline(cfg, raw, o, m, i, tower, supplied, tower_index=None):
     """The documented low-level pipeline, called by hand with the numbers the specification names."""
     from bldfm.utils import compute_wind_fields, ideal_source
     from bldfm.pbl_model import vertical_profiles
@@ -264,7 +267,7 @@ def explicit_pipeline(cfg, raw, o, m, i, tower, supplied):
     kw = met_kwargs(m)
     pick = lambda f: None if kw[f] is None else (kw[f][i] if isinstance(kw[f], list) else kw[f])
     u, v = compute_wind_fields(pick("wind_speed"), pick("wind_dir"))
-    t = TOWERS[o["tower"] - 1]
+    t = TOWERS[(tower_index or o["tower"]) - 1]
     dom = raw["domain"]
     if m["z0"]:
         z, prof = vertical_profiles(n=dom["nz"], meas_height=t["z_m"], wind=(u, v), z0=Z0, mol=pick("mol"), closure=o["closure"])
@@ -291,19 +294,19 @@ def explicit_pipeline(cfg, raw, o, m, i, tower, supplied):
     return {"grid": grid, "conc": conc, "flx": flx, "tower_name": t["name"], "tower_xy": (x, y), "timestamp": ts}
 
 
-def check_call_records(chk, o, m, i, want, rec, cfg, tower, supplied, sc):
+def _call_record_mismatch(o, m, i, want, rec, cfg, tower, supplied):
     """the recorded arguments of the four low-level calls must be the ones the specification names"""
     names = [c[0] for c in rec.calls]
     exp_names = ["compute_wind_fields", "vertical_profiles"] + ([] if o["src"] == "supplied" else ["ideal_source"]) + ["steady_state_transport_solver"]
     if names != exp_names:
-        return chk.violation("low-level calls %s, the specification says %s" % (names, exp_names), sc, klass={"check": "call_sequence"})
+        return "low-level calls %s, the specification says %s" % (names, exp_names)
     calls = {c[0]: c for c in rec.calls}
     kw = met_kwargs(m)
     tokval = lambda f, tok: None if tok == ABSENT else val(f, tok)
     # 1 wind
     _, a, k, wind_out = calls["compute_wind_fields"]
     if list(a) != [tokval("wind_speed", want["wind"]["speed"]), tokval("wind_dir", want["wind"]["dir"])] or k:
-        return chk.violation("compute_wind_fields called with %s" % (a,), sc, klass={"check": "wind_args"})
+        return "compute_wind_fields called with %s" % (a,)
     # 2 profiles
     _, a, k, prof_out = calls["vertical_profiles"]
     t = TOWERS[o["tower"] - 1]
@@ -311,14 +314,14 @@ def check_call_records(chk, o, m, i, want, rec, cfg, tower, supplied, sc):
     fk, ft = want["profiles"]["forcing"]
     expk["z0" if fk == "z0" else "ustar"] = Z0 if fk == "z0" else tokval("ustar", ft)
     if a or set(k) != set(expk) or any(not (k[x] is expk[x] or same(k[x], expk[x])) for x in expk):
-        return chk.violation("vertical_profiles called with %s, expected %s" % ({x: k[x] for x in k if x != "wind"}, {x: expk[x] for x in expk if x != "wind"}), sc, klass={"check": "profile_args"})
+        return "vertical_profiles called with %s, expected %s" % ({x: k[x] for x in k if x != "wind"}, {x: expk[x] for x in expk if x != "wind"})
     # 3 source
     if o["src"] == "ideal":
         _, a, k, src_out = calls["ideal_source"]
         exp_a = [(cfg.domain.nx, cfg.domain.ny), (cfg.domain.xmax, cfg.domain.ymax)]
         exp_k = {"src_loc": (70.0, 30.0) if o["srcloc"] == "value" else None, "shape": o["shape"]}
         if list(a) != exp_a or k != exp_k:
-            return chk.violation("ideal_source called with %s %s, expected %s %s" % (a, k, exp_a, exp_k), sc, klass={"check": "source_args"})
+            return "ideal_source called with %s %s, expected %s %s" % (a, k, exp_a, exp_k)
     else:
         src_out = supplied
     # 4 solver
@@ -332,13 +335,26 @@ def check_call_records(chk, o, m, i, want, rec, cfg, tower, supplied, sc):
         "precision": o["prec"], "cache": None,
     }
     if a or set(k) != set(exp):
-        return chk.violation("solver called with positional args or keys %s" % sorted(k), sc, klass={"check": "solver_args"})
+        return "solver called with positional args or keys %s" % sorted(k)
     for x in exp:
         if x in ("srf_flx", "z", "profiles"):
             if k[x] is not exp[x]:
-                return chk.violation("solver argument %s is not the object returned by the previous step" % x, sc, klass={"check": "solver_args", "arg": x})
+                return "solver argument %s is not the object returned by the previous step" % x
         elif not same(k[x], exp[x]) and not (x == "modes" and tuple(k[x]) == tuple(exp[x])):
-            return chk.violation("solver argument %s = %r, the specification says %r" % (x, k[x], exp[x]), sc, klass={"check": "solver_args", "arg": x})
+            return "solver argument %s = %r, the specification says %r" % (x, k[x], exp[x])
+    return None
+
+
+def check_call_records(chk, o, m, i, want, rec, cfg, tower, supplied, sc):
+    """Code -> specification: the recorded low-level calls against the call records of Config.tla.
+
+    HOW the pipeline calls its steps (positional or keyword arguments, the same array object or an equal copy, an
+    explicit default, a memoised step) is the specification's form, not the property's: a mismatch is reported as
+    drift and the comparison of the result with the explicit pipeline decides (alarm policy, DESIGN 3.4).
+    """
+    msg = _call_record_mismatch(o, m, i, want, rec, cfg, tower, supplied)
+    if msg:
+        chk.drift_note("call records (%s, step %d): %s" % (o, i, msg))
     return False
 
 
@@ -422,14 +438,16 @@ def main_single():
                 "vs the specification's records, then high-level result vs the explicit pipeline bit-identically, then YAML vs dict" % every)
     d = common.scratch("c13_yaml")
     rng = np.random.default_rng(seed() + 5)
+    nsup = 0
     for e in r.emitted:
         o, m = e["o"], e["m"]
         if e["outcome"] != "done":
             continue
-        raw = build_raw(o, m)
+        nsup += o["src"] == "supplied"
+        raw = build_raw(o, m, square=(o["src"] == "supplied" and nsup % 2 == 1))
         cfg = parse_config_dict(copy.deepcopy(raw))
         tower = cfg.towers[o["tower"] - 1]
-        supplied = rng.uniform(-1, 2, size=(BASE_DOMAIN["ny"], BASE_DOMAIN["nx"])) if o["src"] == "supplied" else None
+        supplied = rng.uniform(-1, 2, size=(raw["domain"]["ny"], raw["domain"]["nx"])) if o["src"] == "supplied" else None
         # YAML and dictionary parse to the same configuration
         yp = os.path.join(d, "c.yaml")
         with open(yp, "w") as f:
@@ -472,6 +490,21 @@ def main_single():
             w["ts"] = list(w["ts"])
             if got != w:
                 chk.violation("result params %s, the specification says %s" % (got, w), sc, klass={"check": "params"})
+            # the same step for another tower of the configuration, in the same process (SingleCall names the tower's
+            # own height and position: whatever the earlier call left behind must not leak into this one)
+            if o["ntowers"] > 1:
+                other = o["tower"] % o["ntowers"] + 1
+                try:
+                    hi2 = iface.run_bldfm_single(cfg, cfg.towers[other - 1], met_index=i, surface_flux=supplied)
+                    lo2 = explicit_pipeline(cfg, raw, o, m, i, tower, supplied, tower_index=other)
+                except Exception as ex:
+                    chk.violation("the same step for a second tower raised %r" % ex, dict(sc, second_tower=other), klass={"check": "second_tower_exception"})
+                    continue
+                chk.traces += 1
+                bad = [k for k in ("grid", "conc", "flx", "tower_name", "tower_xy", "timestamp") if not same(hi2[k], lo2[k])]
+                if bad:
+                    chk.violation("after a run for tower %d, the run for tower %d of the same step differs from the explicit pipeline in %s" % (o["tower"], other, bad),
+                                  dict(sc, second_tower=other), klass={"check": "result_second_tower", "fields": ",".join(bad)})
     defaults_scenarios(chk)
     chk.extra["lattice_points_replayed"] = len(r.emitted)
     for e in r.emitted[:3]:
